@@ -17,6 +17,7 @@ SEARCHERS = {
     "C08": {"file": "search/header.rs", "mode": "append", "target": "src/preflate_parameter_estimator.rs"},
     "C07": {"file": "search/deflate.rs", "mode": "append", "target": "src/process.rs"},
     "C03": {"file": "search/deflate.rs", "mode": "append", "target": "src/process.rs", "env": {"VERIF_SEARCH": "c03"}},
+    "C08P": {"file": "search/deflate.rs", "mode": "append", "target": "src/process.rs", "env": {"VERIF_SEARCH": "c08p"}},
     "C05": {"file": "search/deflate.rs", "mode": "append", "target": "src/process.rs", "env": {"VERIF_SEARCH": "c05"}},
     "C04": {"file": "search/golden.rs", "mode": "integration", "env": {"VERIF_GOLDEN_FILE": os.path.join(VERIF, "golden", "golden.txt")}},
     "C02": {"file": "search/deflate.rs", "mode": "append", "target": "src/process.rs", "env": {"VERIF_SEARCH": "c02"}},
